@@ -1,0 +1,43 @@
+// Copyright JAMF Software, LLC
+
+//go:build verif
+
+package cluster
+
+import (
+	"github.com/hashicorp/memberlist"
+	"github.com/lni/dragonboat/v4"
+)
+
+// VerifMemberlist, when set by a simulation harness, may adjust the memberlist
+// configuration (transport, timers) right before the memberlist is created.
+// Compiled only with the `verif` build tag.
+var VerifMemberlist func(cfg *memberlist.Config)
+
+func verifMemberlist(cfg *memberlist.Config) {
+	if VerifMemberlist != nil {
+		VerifMemberlist(cfg)
+	}
+}
+
+// VerifView exposes a shard view together with the memberlist delegate that
+// feeds it, so a simulation harness can drive LocalState/MergeRemoteState.
+type VerifView struct {
+	d *delegate
+}
+
+// VerifNewView creates a fresh view whose local information comes from f.
+func VerifNewView(f func() Info) *VerifView {
+	return &VerifView{d: &delegate{shardView: newView(), infoF: f, msgs: make(chan Message, 1)}}
+}
+
+// Delegate returns the real memberlist delegate.
+func (v *VerifView) Delegate() memberlist.Delegate { return v.d }
+
+// Notify refreshes the view from local information the way Cluster.Notify does.
+func (v *VerifView) Notify() {
+	v.d.shardView.update(toShardViewList(v.d.infoF().ShardInfoList))
+}
+
+// ShardInfo reads the merged view of one shard.
+func (v *VerifView) ShardInfo(id uint64) dragonboat.ShardView { return v.d.shardView.shardInfo(id) }
